@@ -111,6 +111,9 @@ def listSet {α : Type} (xs : List α) (k : Int) (v : α) : List α :=
   | some p => xs.set p v
   | none => xs
 
+/-- `enumerate(xs)` -/
+def enumerate {α : Type} (xs : List α) : List (Int × α) := ((List.range xs.length).map Int.ofNat).zip xs
+
 /-- `[v] * n` -/
 def replicate {α : Type} (n : Int) (v : α) : List α := List.replicate n.toNat v
 
